@@ -46,6 +46,7 @@ CONSTANTS
  CheckIdent = TRUE
  RelayOnce = TRUE
  CandsGuard = TRUE
+ DataGuard = TRUE
  SuspendJoin = %(suspend_join)s
  JoinCacheFirst = TRUE
  AutoTimers = FALSE
